@@ -263,6 +263,10 @@ func main() {
 			continue
 		}
 		p2 = append(p2, plan{"proj->geo", p1[i].di, projlib.Req{Src: d.Proj4, Dst: d.Geo, Pts: pts}})
+		if d.Proj == "utm" && strings.Contains(d.Params, "+south") && p1[i].di > 0 && defs[p1[i].di-1].Proj == "utm" && defs[p1[i].di-1].Ellps == d.Ellps && defs[p1[i].di-1].Params+" +south" == d.Params {
+			// the same zone on the other hemisphere: northings differ by the false northing
+			p2 = append(p2, plan{"proj->proj", p1[i].di, projlib.Req{Src: d.Proj4, Dst: defs[p1[i].di-1].Proj4, Pts: pts[:min(len(pts), 12)]}})
+		}
 		if d.HasDatum && d.Proj != "utm" && d.Pm == 0 {
 			if lastDatum >= 0 && defs[lastDatum].Ellps != d.Ellps {
 				p2 = append(p2, plan{"proj->proj", p1[i].di, projlib.Req{Src: d.Proj4, Dst: defs[lastDatum].Proj4, Pts: pts[:min(len(pts), 12)]}})
